@@ -219,7 +219,7 @@ class Zone:
             if a[0] == "le":
                 self._add(a[1], a[2], a[3])
         # a few rounds: conditional axioms depend on what is already entailed
-        for _ in range(3):
+        for _ in range(5):
             self._close()
             if self.contradiction:
                 return
@@ -233,6 +233,17 @@ class Zone:
                     if self.le(y, x, 0) and self._add(y, x, -1):
                         changed = True
             for t in self.terms:
+                if t[0] == "load" and len(t[2]) == 1 and isinstance(t[2][0], str) and t[3][0] == "def":
+                    v = stored_value(self.fn, t)
+                    if v is not None:
+                        v = norm(v)
+                        if v not in self.idx:
+                            self._grow(v)
+                            changed = True
+                        if self._add(t, v, 0):
+                            changed = True
+                        if self._add(v, t, 0):
+                            changed = True
                 if t[0] == "load" and t[2] == ("size",):
                     cp = buffer_cparam(self.fn, t[1])
                     if cp is not None and ("cparam", cp) in self.idx:
@@ -279,6 +290,29 @@ class Zone:
             if not changed:
                 break
         self._close()
+
+    def _grow(self, v):
+        """add a term (and its definitional sub-terms) after construction"""
+        new = []
+        for s in mir.walk(v):
+            if isinstance(s, tuple) and s and (s is v or s[0] in ("binop", "pcall", "load", "int", "cparam")):
+                if s[0] == "binop" and s[1] not in ("Sub", "Add") and s is not v:
+                    continue
+                if s not in self.idx:
+                    new.append(s)
+        for s in new:
+            if s in self.idx:
+                continue
+            self.idx[s] = len(self.terms)
+            self.terms.append(s)
+            for row in self.d:
+                row.append(INF)
+            self.d.append([INF] * len(self.terms))
+            self.d[-1][-1] = 0
+            self._add(ZERO, s, 0)
+            if s[0] == "int":
+                self._add(s, ZERO, s[1])
+                self._add(ZERO, s, -s[1])
 
     def has(self, t):
         return norm(t) in self.idx
@@ -337,3 +371,83 @@ def buffer_cparam(fn, base):
         if len(cs) == 1:
             return cs[0]
     return None
+
+
+def store_summary(g, field):
+    """If function g stores to `field` exactly once, through a pointer parameter, at a position
+    that dominates every return, with a value in entry terms, and calls nothing that writes the
+    field: (param_index, value_expr). Else None."""
+    from . import effects
+
+    key = ("store_summary", field)
+    if key in g._cache:
+        return g._cache[key]
+    res = None
+    stores = []
+    bad = False
+    for b, i, st, is_term in g.positions(False):
+        if not is_term:
+            if st["k"] == "assign" and mir.place_has_deref(st["place"]) and mir.mem_var_of(st["place"]) == ("M", field):
+                stores.append((b, i, st))
+            elif st["k"] in ("setdiscr", "copy_nonoverlapping"):
+                pass
+        elif st["k"] == "call":
+            for d in effects.call_mem_defs(g, b, st):
+                if d == ("M", field) or d == ("M", effects.ALL):
+                    bad = True
+        elif st["k"] == "drop":
+            for imp in st.get("drop_impls", []):
+                if field in effects.writes_of(g.prog, imp):
+                    bad = True
+    if not bad and len(stores) == 1:
+        b, i, st = stores[0]
+        pl = st["place"]
+        proj = pl["proj"]
+        if len(proj) == 2 and proj[0]["k"] == "deref" and proj[1]["k"] == "field" and 1 <= pl["local"] <= g.arg_count:
+            base = g.local_expr(pl["local"], b, i)
+            val = g.rvalue_expr(st["rv"], b, i)
+            if base == ("param", pl["local"]) and mir.entry_terms_only(val):
+                if all(g.pos_dominates((b, i), (rb, len(g.blocks[rb]['stmts'])), False) for rb in g.return_blocks()):
+                    res = (pl["local"], val)
+    g._cache[key] = res
+    return res
+
+
+def stored_value(fn, load):
+    """value of ('load', base, (field,), ('def', b, i, var)) when the defining position is a
+    direct store through the same base, or a call whose callee has a store summary"""
+    _, base, path, ver = load
+    field = path[0]
+    _, b, i, var = ver
+    blk = fn.blocks[b]
+    if i < len(blk["stmts"]):
+        st = blk["stmts"][i]
+        if st["k"] == "assign" and mir.place_has_deref(st["place"]):
+            pl = st["place"]
+            proj = pl["proj"]
+            if len(proj) == 2 and proj[0]["k"] == "deref" and proj[1]["k"] == "field" and proj[1]["name"] == field:
+                sbase = fn.local_expr(pl["local"], b, i)
+                if norm(sbase) == norm(base):
+                    return fn.rvalue_expr(st["rv"], b, i)
+        return None
+    t = blk["term"]
+    if t["k"] != "call":
+        return None
+    cal = mir.callee_of(t)
+    if cal is None:
+        return None
+    tgt = cal.get("rshort") or cal["short"]
+    g = fn.prog.fns.get(tgt)
+    if g is None or not cal.get("rlocal", cal.get("local")):
+        return None
+    summ = store_summary(g, field)
+    if summ is None:
+        return None
+    p, val = summ
+    args = tuple(fn.call_args(b))
+    if p - 1 >= len(args) or norm(args[p - 1]) != norm(base):
+        return None
+    try:
+        return mir.translate(g, val, fn, b, args, cal.get("rargs") or cal.get("args") or [])
+    except mir.Untranslatable:
+        return None
